@@ -538,6 +538,28 @@ func runC19(cfg config) {
 			fmt.Sprintf("Is over %v %v %v", a, b, c), fmt.Sprintf("is:%d-true", trues), fmt.Sprintf("is:%d:%d", trues, i%50))
 	}
 
+	// ---- history: every URI that went through typed and untyped references above is parsed again ----------------------
+	for _, d := range pool {
+		if d.kind == "uri" && d.u != "" {
+			delete(seenURI, d.u)
+			addURI(d.u, "revisited")
+		}
+	}
+	for _, u := range []string{"urn:uuid:6e8bc430-9c3a-11d9-9669-0800200c9a66", "urn:oid:1.2.3", "http://example.org/fhir/ValueSet/x"} {
+		for _, t := range []string{"Patient", "Group", "Observation"} { // one non-REST URI under three declared types, then bare
+			tt := t
+			d := refDesc{kind: "uri", u: u, typ: &tt}
+			orc := &orcTable{}
+			d.ask(orc)
+			ref := d.build()
+			l, _ := coqOLit(func() (*verifhook.LitInfo, error) { return verifhook.LiteralOf(ref) }, false, orc)
+			sink.add(fmt.Sprintf("CRef %s %s, ORef %s %s %s", d.coq(), orc.coq(), l, coqOIdent(func() (*verifhook.Ident, error) { return verifhook.IdentityOfRef(ref) }), fpReference(ref)),
+				"reference "+d.String(), "ref:"+d.kind, "ref-history:"+d.String())
+		}
+		delete(seenURI, u)
+		addURI(u, "revisited")
+	}
+
 	// ---- canonicals ---------------------------------------------------------------------------------------------------
 	addCanon := func(c, kind string) {
 		var u, v, f, s string
